@@ -37,9 +37,15 @@ Definition extend (l ext : labels) : labels :=
    ExtendSortedLabels(rmLabels(series.Labels(), drop), rmLabels(extLset, drop)) *)
 Definition present (ext : labels) (drop : list str) (stored : labels) : labels :=
   extend (rm drop stored) (rm drop ext).
-(* the other order (BucketStore): extend, then remove *)
+(* the other order (BucketStore, newBlockSeriesClient + blockSeriesClient.nextBatch): the block's
+   external labels lose the replica labels first, the series is extended with them, and the
+   replica labels are then removed from the result; nothing is removed when the request has no
+   replica labels *)
 Definition present_bucket (ext : labels) (drop : list str) (stored : labels) : labels :=
-  rm drop (extend stored ext).
+  match drop with
+  | [] => extend stored ext
+  | _ => rm drop (extend stored (rm drop ext))
+  end.
 
 (* a chunk of a stored series: (MinTime, MaxTime, AggrChunk.Size()) *)
 Definition chunk := (Z * Z * Z)%type.
@@ -85,6 +91,26 @@ Definition tsdb_series (ext : labels) (drop : list str) (ms : list matcher) (max
                                        else []) stored))
   end.
 
+(* BucketStore.Series over blocks (external labels, stored series): per block the matchers on its
+   external labels are checked and stripped (bucketBlockSet.labelMatchers — the same loop as
+   matchesExternalLabels), the rest select the stored series *)
+Definition block_series_labels (drop : list str) (ms : list matcher) (b : labels * list labels) : list labels :=
+  match ext_loop mname mmatch ms (fst b) with
+  | None => []
+  | Some [] => []          (* ExpandedPostings: no matcher left after stripping => no postings *)
+  | Some kept => map (present_bucket (fst b) drop) (filter (selected kept) (snd b))
+  end.
+Definition bucket_series_labels (blocks : list (labels * list labels)) (drop : list str) (ms : list matcher) : list labels :=
+  concat (map (block_series_labels drop ms) blocks).
+
+(* sorted, distinct label sets (observable of a Series response when only labels are compared) *)
+Fixpoint linsert (x : labels) (l : list labels) : list labels :=
+  match l with
+  | [] => [x]
+  | y :: r => match lbl_cmp x y with Gt => y :: linsert x r | Eq => l | Lt => x :: l end
+  end.
+Definition lsort_set (l : list labels) : list labels := fold_right linsert [] l.
+
 (* ---- observables: frames as a canonically sorted list ---- *)
 Definition chunk_eqb (a b : chunk) : bool :=
   let '(a1, a2, a3) := a in let '(b1, b2, b3) := b in (a1 =? b1) && (a2 =? b2) && (a3 =? b3).
@@ -112,6 +138,8 @@ Inductive case :=
 | CTsdb (ext : labels) (drop : list str) (ms : list matcher) (maxBytes : Z) (skip : bool)
         (stored : list (labels * list chunk))
         (o : option (list (labels * list chunk)))   (* None = error; frames sorted by (labels, first chunk) *)
+| CBkt (blocks : list (labels * list labels)) (drop : list str) (ms : list matcher)
+       (o : option (list labels))                  (* BucketStore.Series: label sets, sorted and distinct *)
 | CNop.
 
 Definition corr_ok (c : case) : bool :=
@@ -121,6 +149,11 @@ Definition corr_ok (c : case) : bool :=
       | RErr, None => true
       | ROkFrames fs, Some ofs => list_eqb frame_eqb (fsort fs) ofs
       | _, _ => false
+      end
+  | CBkt blocks drop ms o =>
+      match o with
+      | Some ols => list_eqb labels_eqb (lsort_set (bucket_series_labels blocks drop ms)) ols
+      | None => false
       end
   | CNop => true
   end.
@@ -155,6 +188,17 @@ Definition pred_ok (c : case) : bool :=
                 (match matches_external_labels mname mmatch ms ext with
                  | Some kept => fold_right Z.add 0 (map (fun s => if selected kept (fst s) then Z.of_nat (length (snd s)) else 0) stored) :: nil
                  | None => 0 :: nil end))
+      end
+  | CBkt blocks drop ms o =>
+      match o with
+      | None => false
+      | Some ols =>
+          (* every returned series carries the external labels of some block of the store that were not
+             dropped, none of the dropped labels, sorted unique names *)
+          forallb (fun l =>
+              forallb (fun d => negb (lhas l d)) drop && names_sorted l
+              && existsb (fun b => forallb (fun p => existsb (str_eqb (fst p)) drop || is_empty_str (snd p)
+                                                     || str_eqb (lget l (fst p)) (snd p)) (fst b)) blocks) ols
       end
   | CNop => true
   end.
